@@ -265,7 +265,7 @@ def tlc_run(module, cfg, tag, timeout=3000, workers=None, env_extra=None, simula
     return st, outp
 
 
-def _keep_sample(dirname, module, tag, events, per_type=6):
+def _keep_sample(dirname, module, tag, events, bad=(), per_type=6):
     os.makedirs(dirname, exist_ok=True)
     rnd = random.Random(7)
     by = {}
@@ -281,8 +281,12 @@ def _keep_sample(dirname, module, tag, events, per_type=6):
             groups.append(cur)
     else:
         groups = [[e] for e in events]
+    pos = 0
     for g in groups:
-        by.setdefault(g[-1].get("ev"), []).append(g)
+        ok = not any((pos + k) in bad for k in range(len(g)))
+        pos += len(g)
+        if ok:
+            by.setdefault(g[-1].get("ev"), []).append(g)
     with open(os.path.join(dirname, "%s.%s.ndjson" % (module, tag)), "w") as f:
         for ev, gs in sorted(by.items(), key=lambda x: str(x[0])):
             for g in (gs if len(gs) <= per_type else rnd.sample(gs, per_type)):
@@ -294,9 +298,6 @@ def tlc_judge(module, cfg, events, tag, timeout=3000, chunk=None):
     """Trace validation: write events as ndjson, run the trace spec, return (n_consumed, bad_indices, stats).
     bad indices are 0-based positions into `events`."""
     os.makedirs(os.path.join(WORK, "trace"), exist_ok=True)
-    keep = os.environ.get("DX_KEEP_TRACE")
-    if keep:            # bin/selftest capture: keep a sample of the judged events per trace specification
-        _keep_sample(keep, module, tag, events)
     chunks = [events] if not chunk else [events[i:i + chunk] for i in range(0, len(events), chunk)]
     jobs = []
     off = 0
@@ -332,6 +333,9 @@ def tlc_judge(module, cfg, events, tag, timeout=3000, chunk=None):
         bad += b
         states += st.get("distinct", 0)
         trans += st.get("generated", 0)
+    keep = os.environ.get("DX_KEEP_TRACE")
+    if keep:            # bin/selftest capture: keep a sample of the ACCEPTED events per trace specification
+        _keep_sample(keep, module, tag, events, set(bad))
     return off, sorted(bad), {"states": states, "transitions": trans}
 
 
